@@ -394,7 +394,7 @@ func (rg *registry) checkSize(requiredSize int) { // +inline-start
 
 func (rg *registry) resize(requiredSize int) { // +inline-start
 	newSize := requiredSize + rg.growBy // give some padding
-	if newSize > rg.maxSize {
+	if newSize > rg.maxSize || newSize < requiredSize { // (the sum does not fit an int for a huge grow step)
 		newSize = rg.maxSize
 	}
 	if newSize < requiredSize {
